@@ -87,8 +87,7 @@ class StmtMixin(object):
 
     def assign(self, st, target, value, acc):
         if isinstance(target, ast.Name):
-            st.env[target.id] = value
-            return st
+            return self.bind_target(st, target, value, acc)     # (declared local types are applied there)
         if isinstance(target, (ast.Tuple, ast.List)):
             return self.bind_target(st, target, value, acc)
         if isinstance(target, ast.Attribute):
@@ -109,7 +108,7 @@ class StmtMixin(object):
             if declared is not None and value is not POISON and getattr(value, "z", None) is not None \
                     and value.kind is None and value.cls is None and self.cur_fid == self.cur_fid_top:
                 # declared local type (contract option `locals`): a checked cast of a value of unknown static type
-                ok = self.type_pred(value.z, declared)
+                ok = self.type_pred(value.z, declared, positive=False)
                 self.oblige(st, "type", self.auto_label(target, "local"), ok,
                             note="local %s holds a %s (declared in the contract)" % (target.id, declared))
                 st.assume(ok)
